@@ -41,6 +41,6 @@ for f in sorted(os.listdir(cdir)):
             name, params = m.group(1), m.group(2).strip()
             if name in ("if", "for", "while", "switch"):
                 continue
-            out["c_functions"][name] = 0 if params in ("", "void") else params.count(",") + 1
+            out["c_functions"].setdefault(f, {})[name] = 0 if params in ("", "void") else params.count(",") + 1
 json.dump(out, open(os.path.join(os.path.dirname(os.path.dirname(os.path.abspath(__file__))), "sa", "pin_tables.json"), "w"), indent=0, sort_keys=True)
 print(len(out["functions"]), "functions,", sum(map(len, out["locals"].values())), "locals,", out["c_functions"])
